@@ -259,6 +259,8 @@ pub mod verif_trace {
         Group(Vec<(usize, usize, u32, i32, f64, bool)>),
         /// set_edge_kind_connected(edge, exterior?)
         Set(usize, usize, bool),
+        /// A path arithmetic operation was entered: its name and a fingerprint of each of its operands
+        Op(&'static str, Vec<u64>),
     }
 
     thread_local! { static TRACE: RefCell<Option<Vec<Event>>> = RefCell::new(None); }
@@ -268,6 +270,32 @@ pub mod verif_trace {
 
     /// Stops recording and returns the events
     pub fn take() -> Vec<Event> { TRACE.with(|t| t.borrow_mut().take().unwrap_or_default()) }
+
+    /// FNV-1a hash of the coordinates of a set of paths (bit patterns of every start, control and end point, in order)
+    pub fn fingerprint<P: crate::bezier::path::BezierPath>(paths: &Vec<P>) -> u64
+    where
+        P::Point: crate::geo::Coordinate2D,
+    {
+        use crate::geo::Coordinate2D;
+
+        let mut hash    = 0xcbf29ce484222325u64;
+        let mut add     = |value: u64| { for byte in value.to_le_bytes() { hash ^= byte as u64; hash = hash.wrapping_mul(0x100000001b3); } };
+
+        add(paths.len() as u64);
+        for path in paths.iter() {
+            let start = path.start_point();
+            add(start.x().to_bits()); add(start.y().to_bits());
+
+            let mut num_points = 0u64;
+            for (cp1, cp2, end) in path.points() {
+                for point in [cp1, cp2, end] { add(point.x().to_bits()); add(point.y().to_bits()); }
+                num_points += 1;
+            }
+            add(num_points);
+        }
+
+        hash
+    }
 
     pub (crate) fn push(event: Event) { TRACE.with(|t| if let Some(events) = t.borrow_mut().as_mut() { events.push(event); }); }
 }
